@@ -10,9 +10,18 @@ theories/Gen/C07Consts_ok.vos theories/Gen/C07Consts_ok.vok theories/Gen/C07Cons
 theories/Model/Lru.vo theories/Model/Lru.glob theories/Model/Lru.v.beautified theories/Model/Lru.required_vo: theories/Model/Lru.v theories/Base/Sx.vo
 theories/Model/Lru.vio: theories/Model/Lru.v theories/Base/Sx.vio
 theories/Model/Lru.vos theories/Model/Lru.vok theories/Model/Lru.required_vos: theories/Model/Lru.v theories/Base/Sx.vos
+theories/Model/TcCache.vo theories/Model/TcCache.glob theories/Model/TcCache.v.beautified theories/Model/TcCache.required_vo: theories/Model/TcCache.v theories/Base/Sx.vo theories/Model/Lru.vo
+theories/Model/TcCache.vio: theories/Model/TcCache.v theories/Base/Sx.vio theories/Model/Lru.vio
+theories/Model/TcCache.vos theories/Model/TcCache.vok theories/Model/TcCache.required_vos: theories/Model/TcCache.v theories/Base/Sx.vos theories/Model/Lru.vos
+theories/Proofs/Lru.vo theories/Proofs/Lru.glob theories/Proofs/Lru.v.beautified theories/Proofs/Lru.required_vo: theories/Proofs/Lru.v theories/Base/Sx.vo theories/Model/Lru.vo
+theories/Proofs/Lru.vio: theories/Proofs/Lru.v theories/Base/Sx.vio theories/Model/Lru.vio
+theories/Proofs/Lru.vos theories/Proofs/Lru.vok theories/Proofs/Lru.required_vos: theories/Proofs/Lru.v theories/Base/Sx.vos theories/Model/Lru.vos
 theories/Properties/C07.vo theories/Properties/C07.glob theories/Properties/C07.v.beautified theories/Properties/C07.required_vo: theories/Properties/C07.v 
 theories/Properties/C07.vio: theories/Properties/C07.v 
 theories/Properties/C07.vos theories/Properties/C07.vok theories/Properties/C07.required_vos: theories/Properties/C07.v 
 theories/Run/C07.vo theories/Run/C07.glob theories/Run/C07.v.beautified theories/Run/C07.required_vo: theories/Run/C07.v theories/Base/Sx.vo theories/Model/Lru.vo
 theories/Run/C07.vio: theories/Run/C07.v theories/Base/Sx.vio theories/Model/Lru.vio
 theories/Run/C07.vos theories/Run/C07.vok theories/Run/C07.required_vos: theories/Run/C07.v theories/Base/Sx.vos theories/Model/Lru.vos
+theories/Run/C17.vo theories/Run/C17.glob theories/Run/C17.v.beautified theories/Run/C17.required_vo: theories/Run/C17.v theories/Base/Sx.vo theories/Model/Lru.vo theories/Model/TcCache.vo
+theories/Run/C17.vio: theories/Run/C17.v theories/Base/Sx.vio theories/Model/Lru.vio theories/Model/TcCache.vio
+theories/Run/C17.vos theories/Run/C17.vok theories/Run/C17.required_vos: theories/Run/C17.v theories/Base/Sx.vos theories/Model/Lru.vos theories/Model/TcCache.vos
